@@ -87,7 +87,11 @@ def run_case(st, base, which, r, spelling, table, scn):
     # build the annotated participant at rotation r
     if spelling == "lib":
         feats = [gen.mk_feature(parts, type=typ, fid="f%d" % i) for i, (typ, parts) in table]
-        rec = CircularRecord(Seq(s0), id="ann", name="ann", features=feats) >> r
+        try:
+            rec = CircularRecord(Seq(s0), id="ann", name="ann", features=feats) >> r
+        except Exception as e:
+            st.violation("assembly", "annotated-record-cannot-be-rotated-" + type(e).__name__, scn, "a record", str(e)[:200])
+            return
     else:
         feats = []
         for i, (typ, parts) in table:
@@ -181,7 +185,7 @@ def run_case(st, base, which, r, spelling, table, scn):
             if sorted(d[0] for d in gimg) == sorted(d[0] for d in img):
                 cause = "inherited-feature-strand-or-order-changed"
             st.violation("features", cause, dict(scn, feature=label, parts=dict(table)[int(label[1:])][1]), list(img)[:8], list(gimg)[:8])
-        elif gtyp != typ or gq.get("note") != ["n-" + label, "second"] or gq.get("label") != [label]:
+        elif gtyp != typ or snapshot._plain(dict(gq)) != snapshot._plain(dict(gen.qualifiers_for(label))):
             st.violation("features", "inherited-feature-type-or-qualifiers-changed", dict(scn, feature=label), [typ], [gtyp, dict(gq)])
     for label in got:
         if label in optional:
